@@ -341,6 +341,14 @@ def symbolExact (s : Sym) : Bool :=
     ((bnds.isEmpty && (o.orientable || o.count == 0)) == s.view.isOriented)
   | _, _, _ => false
 
+/-- the premise of Gauss–Bonnet that is not a theorem: an orientable symbol has an even `2 - χ`
+    (so that the `x / 2` handles lose nothing); vacuous for non-orientable symbols -/
+def parityMonitor (s : Sym) : Bool :=
+  match traceBoundary s, orbifoldSymbol s with
+  | .ok bnds, .ok o =>
+    !o.orientable || (2 - (eulerCharacteristic s + (bnds.length : Int))) % 2 == 0
+  | _, _ => false
+
 /-- the part of the monitor that is not a theorem (Props/C08.lean proves the corner part for every
     valid symbol): an orientable symbol has an even `2 - χ`, and the symbol is closed without
     cross-cap exactly when the D-symbol is oriented. -/
